@@ -1,41 +1,120 @@
-import KV.Plan
-import KV.Plan2
-import KV.Stmts
+import KV.Dump
+import KV.InstallModel
+import KV.Generated.Install
+/-! Line-protocol driver for the executable models: one request per line on stdin, one canonical answer
+    line on stdout.  The correspondence check pipes the same lines to the implementation's drivers
+    (verif-tagged test files in /repo) and diffs the two streams.
+
+      D <ret> ; <kind async err : requires : provides/... : structTy : F=ty ...> ; ...   planner dump
+      V <pre> ... | <op> ...          VarPool history (ops n:<base> t:<TypeName> c:<TypeName>)
+      I path=name path=name ...       TypeConverter.AddImport history
+      F crash|fault                   witnesses of the install step list (failure path of C15)
+-/
 open KV
 
 def parseNats (s : String) : List Nat :=
   (s.splitOn " ").filterMap (fun t => t.trimAscii.toString.toNat?)
 
-def parseProv (idx : Nat) (s : String) : PSpec :=
+def words (s : String) : List String :=
+  (s.splitOn " ").map (fun t => t.trimAscii.toString) |>.filter (fun t => !t.isEmpty)
+
+def parseProv (idx : Nat) (s : String) : Option PSpec :=
   match s.splitOn ":" with
   | [hd, req, prv, sty, flds] =>
     let h := parseNats hd
+    if h.length != 3 then none else
     let groups := (prv.splitOn "/").map parseNats |>.filter (fun g => !g.isEmpty)
-    let fields := (flds.splitOn " ").filterMap (fun t =>
-      match t.trimAscii.toString.splitOn "=" with
+    let fields := (words flds).filterMap (fun t =>
+      match t.splitOn "=" with
       | [n, ty] => ty.toNat?.map (fun k => (n, k))
       | _ => none)
-    { kind := h.getD 0 0, isAsync := h.getD 1 0 == 1, isErr := h.getD 2 0 == 1,
-      requires := parseNats req, provides := groups,
-      structTy := (parseNats sty).getD 0 0, fields := fields, decl := idx }
-  | _ => { decl := idx }
+    some { kind := h.getD 0 0, isAsync := h.getD 1 0 == 1, isErr := h.getD 2 0 == 1,
+           requires := parseNats req, provides := groups,
+           structTy := (parseNats sty).getD 0 0, fields := fields, decl := idx }
+  | _ => none
 
-def errKind : PlanErr → String
-  | .dup _ => "dup" | .orphan _ => "orphan" | .cycle => "cycle" | .noInitial => "noInitial"
-  | .noReturn => "noReturn" | .invalid => "invalid"
-
-def handle (ext v2 sem : Bool) (line : String) : String :=
+def handleDecl (line : String) : String :=
   match line.splitOn ";" with
   | hd :: ps =>
-    let ret := (parseNats hd).getD 0 0
-    let provs := (List.range ps.length).zip ps |>.map (fun (i, s) => parseProv i s)
-    if sem then planDumpSem provs ret else if v2 then planDump3 provs ret else planDump provs ret ext
+    match (parseNats hd) with
+    | ret :: _ =>
+      let provs := (List.range ps.length).zip ps |>.map (fun (i, s) => parseProv i s)
+      if provs.any Option.isNone then "BAD"
+      else planDumpX (provs.filterMap id) ret
+    | [] => "BAD"
   | _ => "BAD"
 
-partial def loop (ext v2 sem : Bool) (h : IO.FS.Stream) : IO Unit := do
+def parseReq (op : String) : Option VP.Req :=
+  match op.splitOn ":" with
+  | ["n", b] => some (.name b)
+  | ["t", t] => some (.ofType t)
+  | ["c", t] => some (.chanOf t)
+  | _ => none
+
+def handleVarPool (line : String) : String :=
+  match line.splitOn "|" with
+  | [pre, ops] =>
+    let p0 := (words pre).foldl (fun p b => (VP.getNameCur p b).1) VP.seedPool
+    let reqs := (words ops).map parseReq
+    if reqs.any Option.isNone then "BAD"
+    else
+      let (_, outs) := VP.runCur p0 ((reqs.filterMap id).map VP.Req.base)
+      "V " ++ " ".intercalate outs
+  | _ => "BAD"
+
+def lastPathElement (p : String) : String := (p.splitOn "/").getLastD p
+
+/-- insertion sort on strings (the implementation side sorts with sort.Strings, bytewise) -/
+def insertStr (x : String) : List String → List String
+  | [] => [x]
+  | y :: ys => if x < y then x :: y :: ys else y :: insertStr x ys
+def sortStrs (l : List String) : List String := l.foldl (fun acc x => insertStr x acc) []
+
+def handleImports (line : String) : String :=
+  let ops := (words line).map (fun op => match op.splitOn "=" with
+    | [p, n] => some (p, n)
+    | _ => none)
+  if ops.any Option.isNone then "BAD"
+  else
+    let ops := ops.filterMap id
+    -- intern paths
+    let paths := ops.foldl (fun (acc : List String) pn => if acc.contains pn.1 then acc else acc ++ [pn.1]) []
+    let idOf := fun (p : String) => (paths.idxOf p)
+    let init : Imp.TC := { imports := [], used := [], counters := [] }
+    let (tc, names, ok) := ops.foldl (fun (acc : Imp.TC × List String × Bool) pn =>
+      let (tc, names, ok) := acc
+      match Imp.addImport tc (idOf pn.1) pn.2 with
+      | some (tc', n) => (tc', names ++ [n], ok)
+      | none => (tc, names, false)) (init, [], true)
+    if !ok then "FUEL"
+    else
+      let specs := tc.imports.map (fun (pid, n) =>
+        let p := paths.getD pid ""
+        p ++ "=" ++ (if n == lastPathElement p then "" else n))
+      "I " ++ " ".intercalate names ++ " | " ++ " ".intercalate (sortStrs specs)
+
+def handleInstall (what : String) : String :=
+  match what with
+  | "crash" => s!"F {repr (Inst.crashWitness Gen.installSteps Gen.fileMode)}"
+  | "fault" => s!"F {repr (Inst.faultWitness Gen.installSteps Gen.installCleanup)}"
+  | "steps" => s!"F {Gen.installSteps.length}"
+  | _ => "BAD"
+
+def handle (line : String) : String :=
+  if line.startsWith "D " then handleDecl (line.drop 2).toString
+  else if line.startsWith "V " then handleVarPool (line.drop 2).toString
+  else if line.startsWith "V" && line.length == 1 then "BAD"
+  else if line.startsWith "I " then handleImports (line.drop 2).toString
+  else if line.startsWith "F " then handleInstall (line.drop 2).trimAscii.toString
+  else "BAD"
+
+partial def loop (h : IO.FS.Stream) (out : IO.FS.Stream) : IO Unit := do
   let line ← h.getLine
   if line.isEmpty then return ()
-  IO.println (handle ext v2 sem (line.trimAscii.toString))
-  loop ext v2 sem h
+  out.putStrLn (handle (line.trimAscii.toString))
+  loop h out
 
-def main (args : List String) : IO Unit := do loop (args.contains "ext") (args.contains "v2") (args.contains "sem") (← IO.getStdin)
+def main : IO Unit := do
+  let out ← IO.getStdout
+  loop (← IO.getStdin) out
+  out.flush
